@@ -402,6 +402,16 @@ def check_invalid(case):
             continue
         raise Fail("%s: accepted an HP value with a minutes or seconds field of 60 or more" % label, expected="ValueError",
                    observed={"hp": h, "result": repr(r)}, bucket=label + " accepts invalid HP")
+    # the vectorised HP-to-decimal conversion: the invalid value among valid ones of the same magnitude class
+    import numpy as np
+    side = 600.3 if abs(h) >= 512 else 12.3
+    arr = np.array([side, h, -side] if case["neg"] else [h, side])
+    try:
+        r = a.hp2dec_v(arr)
+    except ValueError:
+        return
+    raise Fail("hp2dec_v: accepted an HP value with a minutes or seconds field of 60 or more", expected="ValueError",
+               observed={"hp": arr.tolist(), "result": repr(r)}, bucket="hp2dec_v accepts invalid HP")
 
 
 @st.composite
